@@ -62,6 +62,11 @@ func (m modelsim) Run(c *Case, dir string) *Outcome {
 		order = sim.NewTape(c.Seed, c.Run, "order")
 	}
 	w := &sim.World{MapOrder: c.Prog.Cfg.MapOrder, Order: order}
+	var obs *flObserver
+	if c.Prop == "C09" {
+		obs = newFLObserver(path)
+		w.FLObs = obs.On
+	}
 	w.Install()
 	defer sim.Uninstall()
 
@@ -93,6 +98,10 @@ func (m modelsim) Run(c *Case, dir string) *Outcome {
 	}
 	finished = true
 	out.Viol = e.Viol
+	if obs != nil {
+		out.Viol = append(out.Viol, obs.viol...)
+		out.merge(obs.probes)
+	}
 	out.merge(e.Probes)
 	out.Evals = 1
 	if e.Probes["commit"] > 0 {
